@@ -241,4 +241,57 @@ theorem expired_first_resurrects :
     (∀ g ∈ G, keep g = false → expired 200 g = true) := by
   decide
 
+
+/-! ### restarting later: time only ever removes keys -/
+
+theorem expired_mono {now now' : Nat} (h : now ≤ now') (g : Gen) (he : expired now g = true) : expired now' g = true := by
+  simp only [expired, Bool.and_eq_true, decide_eq_true_eq] at *
+  omega
+
+/-- what a recovery at the later instant `now'` exposes is what the one at `now` exposed, minus
+the keys whose winner has expired in between -/
+theorem exposed_later {now now' : Nat} (h : now ≤ now') (k : Nat) (G : List Gen) :
+    exposed now' k G = (exposed now k G).filter (fun w => !expired now' w) := by
+  unfold exposed
+  cases hw : winner k G with
+  | none => rfl
+  | some w =>
+    simp only
+    cases he : expired now w with
+    | true => simp [expired_mono h w he]
+    | false =>
+      cases he' : expired now' w <;> simp [Option.filter, he']
+
+/-- **Restartable across time.**  A recovery at `now` is interrupted anywhere in phase 1 (stale
+generations, any subset) or — phase 1 complete — anywhere in phase 2 (winners expired at `now`,
+any subset); the device is recovered again at `now' ≥ now`.  It exposes the first recovery's
+contents minus the keys whose winner has expired by `now'`: nothing else disappears and nothing
+older comes back. -/
+theorem two_phase_restartable_later (now now' : Nat) (hle : now ≤ now') (G : List Gen) (hnd : G.Nodup)
+    (keep1 keep2 : Gen → Bool)
+    (h1 : ∀ k w, winner k G = some w → keep1 w = true)
+    (h2 : ∀ g ∈ winners G, keep2 g = false → expired now g = true) (k : Nat) :
+    exposed now' k (G.filter keep1) = (exposed now k G).filter (fun w => !expired now' w) ∧
+    exposed now' k ((winners G).filter keep2) = (exposed now k G).filter (fun w => !expired now' w) := by
+  have h2' : ∀ g ∈ winners G, keep2 g = false → expired now' g = true :=
+    fun g hg hk => expired_mono hle g (h2 g hg hk)
+  obtain ⟨a, b⟩ := two_phase_restartable now' G hnd keep1 keep2 h1 h2' k
+  rw [a, b]
+  exact ⟨exposed_later hle k G, exposed_later hle k G⟩
+
+/-- a scan that drops a record already past its expiry *before* the newest-wins comparison
+(seeded change C04-5: "an expired record that displaces nothing is retired straight away") -/
+def exposedDropFirst (now k : Nat) (G : List Gen) : Option Gen :=
+  best ((ofKey k G).filter (fun g => !expired now g))
+
+/-- … makes the winner depend on the clock: once the newest generation has expired, the older
+one — superseded long ago — is exposed -/
+theorem drop_expired_before_selection_resurrects :
+    let old : Gen := ⟨1, 5, 0, 40⟩
+    let new : Gen := ⟨1, 9, 100, 16⟩
+    let G := [new, old]
+    exposed 50 1 G = some new ∧ exposed 200 1 G = none ∧
+    exposedDropFirst 50 1 G = some new ∧ exposedDropFirst 200 1 G = some old := by
+  decide
+
 end Feox.Proto.Gens
